@@ -58,7 +58,7 @@ CLAIMED["C07"] = dict(
          "every history of operations up to the bound; each is replayed with real executors in a process forked from a pristine parent, then five probe queries are "
          "translated and TLC requires each probe's normalised package to equal its fresh-process package.",
     design_ref="DESIGN.md section 5 C07, section 2.6",
-    note="Histories up to length 2 (quick, exhaustive: 2 071) / 3 (thorough, sampled beyond the cap) over 72 operations (6 metadata kinds incl. a declaration on a class with built-in default types x 4 outcomes x 3 executors); seven probes sensitive to method types, default types, enums, "
+    note="Histories up to length 2 (quick, exhaustive: 2 071) / 3 (thorough, sampled beyond the cap) over 72 operations (6 metadata kinds incl. a declaration on a class with built-in default types x 4 outcomes x 3 executors); nine probes sensitive to method types, default types, enums, template directories, a second translation of the same object, "
          "blocks, extended metadata, other backend; comparison after renaming generated identifiers.",
     technique="TLA+ spec Lifecycle + TLC history enumeration, replay in forked real processes, TLC trace validation (LifecycleTrace, memo form)",
 )
